@@ -28,14 +28,19 @@ VARIABLES cfg,        \* [writable : SUBSET Nat, want : Nat, retries : Nat]
           allok,      \* service -> TRUE while every response it gave was a 200
           everok,     \* set of services that gave a 200 before Put returned
           confirmed,  \* sum of replicas-stored over 200 responses given before Put returned
+          maybe,      \* number of broken 200 answers given before Put returned (each may or may not count)
           done        \* "no" | "ok" | "err"
 
-cvars == <<cfg, attempts, last, allok, everok, confirmed, done>>
+cvars == <<cfg, attempts, last, allok, everok, confirmed, maybe, done>>
 
 OkKinds   == {"ok1", "ok2", "oknh"}            \* 200 with X-Keep-Replicas-Stored 1 / 2 / absent
 Transient == {"connerr", "s408", "s429", "s500", "s502"}
 Permanent == {"s400", "s403", "s503"}
-Kinds     == OkKinds \cup Transient \cup Permanent
+\* 200 with the replicas header whose body (the locator) cannot be read to the end.  The statement
+\* does not say whether such an answer confirms a replica or may be retried, so both are allowed;
+\* but its truncated body is not a locator "issued by a service" (clause b).
+Broken    == {"okcut"}
+Kinds     == OkKinds \cup Transient \cup Permanent \cup Broken
 
 Rep(k) == IF k = "ok2" THEN 2 ELSE IF k \in OkKinds THEN 1 ELSE 0
 
@@ -47,16 +52,17 @@ CInit(c) == /\ cfg = c
             /\ allok = [s \in AllServices |-> TRUE]
             /\ everok = {}
             /\ confirmed = 0
+            /\ maybe = 0
             /\ done = "no"
 
 (* A request arrives at service s.  Requests started before Put returned   *)
 (* may still arrive afterwards (abandoned uploads), so `done` is not tested.*)
 Req(s) == /\ s \in cfg.writable                                   \* (d)
-          /\ last[s] \in {"none"} \cup Transient                  \* (e)
+          /\ last[s] \in {"none"} \cup Transient \cup Broken     \* (e)
           /\ attempts[s] < 1 + cfg.retries                        \* (e)
           /\ attempts' = [attempts EXCEPT ![s] = @ + 1]
           /\ last' = [last EXCEPT ![s] = "pending"]
-          /\ UNCHANGED <<cfg, allok, everok, confirmed, done>>
+          /\ UNCHANGED <<cfg, allok, everok, confirmed, maybe, done>>
 
 (* Service s answers with kind k.  Answers given after Put returned are    *)
 (* not counted.                                                            *)
@@ -67,7 +73,8 @@ Resp(s, k) == /\ last[s] = "pending"
               /\ IF done = "no"
                  THEN /\ confirmed' = confirmed + Rep(k)
                       /\ everok' = IF k \in OkKinds THEN everok \cup {s} ELSE everok
-                 ELSE UNCHANGED <<confirmed, everok>>
+                      /\ maybe' = IF k \in Broken THEN maybe + 1 ELSE maybe
+                 ELSE UNCHANGED <<confirmed, everok, maybe>>
               /\ UNCHANGED <<cfg, attempts, done>>
 
 Accepting == {s \in cfg.writable : allok[s]}
@@ -77,12 +84,13 @@ Accepting == {s \in cfg.writable : allok[s]}
 PutDone(ok, n, issuer, locok) ==
     /\ done = "no"
     /\ IF ok
-       THEN /\ n >= cfg.want /\ n <= confirmed                    \* (a)
+       THEN /\ n >= cfg.want /\ n <= confirmed + maybe            \* (a)
             /\ issuer \in everok /\ locok                         \* (b)
-       ELSE /\ n = confirmed /\ confirmed < cfg.want              \* (c)
+       ELSE /\ n >= confirmed /\ n <= confirmed + maybe           \* (c)
+            /\ n < cfg.want
             /\ Cardinality(Accepting) < cfg.want                  \* (f)
     /\ done' = IF ok THEN "ok" ELSE "err"
-    /\ UNCHANGED <<cfg, attempts, last, allok, everok, confirmed>>
+    /\ UNCHANGED <<cfg, attempts, last, allok, everok, confirmed, maybe>>
 
 TypeOK == /\ done \in {"no", "ok", "err"}
           /\ confirmed \in Nat
